@@ -457,7 +457,11 @@ func (s *Shim) onReleased(r *si.AllocationRelease) {
 		// echo of the shim's own release, or fallout of an application / node removal the shim asked for
 		switch m.Status {
 		case stGone:
-			if !m.ReleaseSent && !s.appGone(m.App) && !s.nodeGone(m.Node) {
+			if s.confirmInFlight(m.Key) {
+				// the core answers the shim's own message about this key (a confirmation it could no longer match
+				// with a replacement is handled as an ordinary release by the RM, and echoed as one)
+				s.faults["probe_confirmation_echoed_as_release"]++
+			} else if !m.ReleaseSent && !s.appGone(m.App) && !s.nodeGone(m.Node) {
 				s.violate("C04", "release-not-bound", "STOPPED_BY_RM", "release of %s which is neither bound nor outstanding", m.Key)
 			}
 		case stPending:
